@@ -8,7 +8,8 @@ core.register("C06", "Props.C06", "theories/Props/C06.vo",
               ["C06_refused_record_no_trace", "C06_refused_write_no_trace", "C06_refused_append_prefix",
                "C06_refused_iff_spec_refuses"])
 core.register("C15", "Props.C15", "theories/Props/C15.vo",
-              ["C15_counts_exact", "C15_stat_exact", "C15_over_limit_pinned", "C15_drain", "C15_replay_partial"])
+              ["C15_counts_exact", "C15_stat_exact", "C15_over_limit_pinned", "C15_drain",
+               "C15_counts_exact_restarts", "C15_stat_exact_restarts", "C15_restart_always_opens"])
 core.register("C16", "Props.C16", "theories/Props/C16.vo",
               ["C16_no_panic", "C16_write_no_panic", "C16_read_inverted_empty", "C16_index_limit_refused",
                "C16_next_index_in_range_partial"])
@@ -206,7 +207,7 @@ def run_C15(ctx):
     proof = core.proof_stage("C15")
     core.builds()
     n = ctx.scale(400, 4000)
-    base = gen_cases(ctx, n, 5, ctx.scale(50, 200), big_cache=False, small_cache=True, p_reject=0.1,
+    base = gen_cases(ctx, n, 5, ctx.scale(50, 200), big_cache=False, small_cache=True, p_reject=0.1, restarts=2,
                      finals=["F 1", "I", "G", "H", "E", "G", "H"])
     cases = []
     for c in corpus("C15") + base:
